@@ -34,7 +34,7 @@ func Field(m int) *rapid.Generator[int] {
 		case 4, 5:
 			return rapid.IntRange(0, m-1).Draw(t, "uni")
 		case 7:
-			return m - 1 - rapid.IntRange(0, 3).Draw(t, "top") % m
+			return m - 1 - rapid.IntRange(0, 3).Draw(t, "top")%m
 		case 6:
 			b := []int{m / 2, m/2 + 1, m - 1, m/2 - 1, 0, 1}
 			v := rapid.SampledFrom(b).Draw(t, "bnd")
@@ -68,7 +68,7 @@ var weightedOps = []int{
 // idioms are instructions real warriors are made of (and fast paths are written for)
 var idioms = []ref.Instr{
 	{Op: ref.MOV, Mod: ref.MI, A: 0, B: 1},                               // imp
-	{Op: ref.MOV, Mod: ref.MI, A: 0, B: 2},                               // 
+	{Op: ref.MOV, Mod: ref.MI, A: 0, B: 2},                               //
 	{Op: ref.ADD, Mod: ref.MAB, AM: ref.Immediate, A: 4, B: 3},           // dwarf
 	{Op: ref.MOV, Mod: ref.MI, A: 2, BM: ref.BInd, B: 2},                 // dwarf
 	{Op: ref.JMP, Mod: ref.MB, A: -2},                                    // dwarf
